@@ -75,7 +75,7 @@ def run(ck):
     problems = meta.get('problems', []) if rc != 0 else []
     if rc not in (0, 2) or (rc == 2 and not meta):
         problems = ['translator-crashed:' + (out + err).strip()[-300:]]
-    hard = [p for p in problems if not p.startswith('checker-changed')]
+    hard = [p for p in problems if not p.startswith(('checker-changed', 'formula-changed'))]
 
     # ---------------------------------------------------------------- proof obligations
     proof_ok, failing = False, []
@@ -83,6 +83,23 @@ def run(ck):
         proof_ok, failing = ck.proof_stage('MpVerif.C16.Props', 'MpVerif/C16/Props.lean', 'C16_',
                                             ['MpVerif/C16/*.lean', 'MpVerif/Gen/GslSkel.lean'], expect_min=N_THEOREMS)
         ck.log('proof stage: ok=%s failing=%s' % (proof_ok, failing[:8]))
+        # proof-only Mathlib file: HasDerivAt theorems for the elementary bindings (formulas transcribed by hand,
+        # pinned to the source by the translator's formula fingerprints)
+        okd, outd = ck.lake(['MpVerif.C16.Deriv'])
+        dth = []
+        if okd:
+            aok, dth, _ = ck.prop_theorems('MpVerif.C16.Deriv', '')
+            dbad = [(n, [a for a in ax if a not in ALLOWED_AXIOMS]) for n, ax in dth]
+            dbad = [x for x in dbad if x[1]]
+            if not aok or len(dth) < 20 or dbad:
+                failing.append('MpVerif.C16.Deriv: audit (%d theorems, bad axioms %s)' % (len(dth), dbad[:3]))
+                proof_ok = False
+        else:
+            failing.append('MpVerif.C16.Deriv does not build: ' + outd[-400:])
+            proof_ok = False
+        ck.cov['obligations'] = ck.cov.get('obligations', 0) + max(len(dth), 20)
+        ck.cov['discharged'] = ck.cov.get('discharged', 0) + (len(dth) if okd and proof_ok else 0)
+        ck.cov['derivative_theorems_elementary_bindings'] = [n for n, _ in dth]
         if ck.tier == 'thorough' and proof_ok:
             bad = ck.leanchecker(['MpVerif.C16.Props'])
             if bad:
